@@ -220,6 +220,12 @@ fn build_script(rng: &mut Rng, plan: &FilePlan, targeted: bool) -> Script {
             }
         }
     }
+    assemble(plan, &ops, &dels_before, classes)
+}
+
+/// the change groups of an edit script in git's order (within a group removals come before additions)
+fn assemble(plan: &FilePlan, ops: &[LineOp], dels_before: &[Vec<String>], classes: Vec<Value>) -> Script {
+    let n = plan.lines.len();
     // assemble segments in git order: within a change group removals come before additions
     let mut segs: Vec<Seg> = vec![];
     let mut pend_del: Vec<String> = vec![];
@@ -315,6 +321,59 @@ pub fn generate(_ctx: &mut Ctx, seed: u64, i: usize, mode: &str) -> Case {
         diff: Some(diff),
         patterns: vec!["^[a-z0-9]+$".to_string()],
         meta: json!({"gen": "diff", "mode": mode, "i": i, "u": u, "files": meta_files, "globs": with_globs}),
+        ..Default::default()
+    }
+}
+
+
+// ------------------------------------------------------------------------------------------------
+// exhaustive small-scope edit scripts: one fixed file with two linked blocks; every assignment of keep / add / edit to its
+// five non-tag lines and of zero or one deleted line to each of its ten gaps (248 832 scripts), context width cycling
+// through -U0 / -U1 / -U3; `stride` samples every stride-th script
+
+pub fn exhaustive_diff_count(stride: usize) -> usize {
+    (243 * 1024 + stride - 1) / stride
+}
+
+pub fn generate_exhaustive_diff(_ctx: &mut Ctx, stride: usize, k: usize, mode: &str) -> Case {
+    let i = k * stride;
+    let lines: Vec<String> = ["code 0", "# <block name=\"b0\" affects=\":b1\">", "x", "y", "# </block>", "code 5", "# <block name=\"b1\" keep-sorted=\"asc\">", "z", "# </block>"]
+        .iter().map(|s| s.to_string()).collect();
+    let plan = FilePlan {
+        path: "f0.py".into(), comment: "#", lines,
+        blocks: vec![BlockGeo { name: "b0".into(), s: 2, e: 5, depth: 0 }, BlockGeo { name: "b1".into(), s: 7, e: 9, depth: 0 }],
+    };
+    let n = plan.lines.len();
+    let free = [0usize, 2, 3, 5, 7];
+    let mut ops: Vec<LineOp> = vec![LineOp::Keep; n];
+    let mut r = i % 243;
+    for &j in &free {
+        ops[j] = match r % 3 { 0 => LineOp::Keep, 1 => LineOp::Add, _ => LineOp::Edit(format!("old {j}")) };
+        r /= 3;
+    }
+    let mut d = i / 243;
+    let mut dels_before: Vec<Vec<String>> = vec![vec![]; n + 1];
+    for j in 0..=n {
+        if d & 1 == 1 { dels_before[j].push(format!("deleted {j}")); }
+        d >>= 1;
+    }
+    let script = assemble(&plan, &ops, &dels_before, vec![]);
+    let u = [0usize, 1, 3][k % 3];
+    let diff = render(&script.segs, u, &plan.path, false, false);
+    let text: String = plan.lines.iter().map(|l| format!("{l}\n")).collect();
+    let meta_files = vec![json!({
+        "path": plan.path,
+        "segs": script.segs.iter().map(|s| match s { Seg::Keep(_) => "k", Seg::Del(_) => "d", Seg::Add(_) => "a" }).collect::<String>(),
+        "del_texts": script.segs.iter().filter_map(|s| if let Seg::Del(t) = s { Some(t.clone()) } else { None }).collect::<Vec<_>>(),
+        "adds": script.adds, "gaps": script.gaps, "classes": script.classes,
+        "blocks": plan.blocks.iter().map(|b| json!({"name": b.name, "s": b.s, "e": b.e, "depth": b.depth})).collect::<Vec<_>>(),
+        "nlines": plan.lines.len(), "new_file": false, "no_newline": false,
+    })];
+    Case {
+        files: vec![(plan.path.clone(), Some(text))],
+        scan: false,
+        diff: Some(diff),
+        meta: json!({"gen": "diff", "mode": mode, "i": i, "u": u, "files": meta_files, "globs": false, "exhaustive": true}),
         ..Default::default()
     }
 }
